@@ -557,6 +557,12 @@ class CallMixin:
         yield "ok", ("call", ("ext", dotted), tuple(args)), st
 
     # ---- attribute calls on non-repository receivers ---------------------------
+    def _constobj_or_none(self, t):
+        try:
+            return self.constobj_value(t)
+        except Exception:
+            return None
+
     def call_attr(self, f, args, kw, st, fx, node):
         recv, name = f[1], f[2]
         # a dict of known structure: its views are displays of known length
@@ -600,6 +606,17 @@ class CallMixin:
         if isinstance(recv, tuple) and recv[0] == "regtop":
             self.emit(st, fx, "REGTOPCALL", node, reg=recv[1], name=name, args=tuple(args))
             yield "ok", ("call", f, tuple(args)), st
+            return
+        if name == "get" and args and not kw and isinstance(recv, tuple) and (
+                (recv[0] == "constobj" and isinstance(self._constobj_or_none(recv), dict)) or
+                (recv[:1] == ("dict",) and len(recv) == 2 and not is_const(args[0]) and all(is_const(k) for k, v in recv[1]))):
+            # table.get(key[, default]) on a constant mapping / a display with constant keys: the subscript, a miss giving the default
+            dflt = args[1] if len(args) > 1 else NONE
+            for r, t, s2 in self.get_item(recv, args[0], st, fx, node):
+                if r == "raise" and isinstance(t, tuple) and t[:2] == ("exc", "KeyError"):
+                    yield "ok", dflt, s2
+                else:
+                    yield r, t, s2
             return
         if name == "get" and isinstance(recv, tuple) and recv[0] == "functable" and args:
             yield from self.functable_lookup(recv, args[0], args[1] if len(args) > 1 else None, st, fx, node)
